@@ -59,6 +59,8 @@ size_t splinetable<Alloc>::estimateMemory(const std::string& filePath,
 	
 	std::vector<uint32_t> order = readOrder(fits,dim);
 	order[convolution_dimension] += n_convolution_knots-1;
+	//the auxiliary keywords live in the primary header, which we are about to leave
+	uint32_t naux = countAuxKeywords(fits);
 	
 	size_t size = sizeof(splinetable<Alloc>); //main object
 	
@@ -93,7 +95,6 @@ size_t splinetable<Alloc>::estimateMemory(const std::string& filePath,
 	size += dim*sizeof(uint64_t); //naxes
 	size += dim*sizeof(uint64_t); //strides
 	
-	uint32_t naux = countAuxKeywords(fits);
 	//pessimistically assume all keys and values are maximal length
 	size += naux*(FLEN_KEYWORD+FLEN_VALUE)*sizeof(char);
 	
